@@ -36,45 +36,73 @@ def run(ctx):
     model = build_model()
     impl = build_impl()
     maxlen = 5 if ctx.tier == "quick" else 6
-    strings = list(all_strings(ALPHA, maxlen))
-    cases = []
-    # the bare literal: a value on its own and a description at level 0, default configuration, exhaustive
-    for s in strings:
-        h = hexs(s)
-        cases.append(f"0 value 0 {h}")
-        cases.append(f"0 desc_scalar 0 {h}")
-    n_bare = len(cases)
+    stats = {"printed_as_block_string": 0, "printed_as_multi_line_block_string": 0, "printed_as_quoted_string": 0}
+    block_ctx = set()
+
+    def process(cases):
+        cases = sorted(set(cases))
+        rows = ctx.correspond(impl, model, "ser_string", cases, classify=classify,
+                              nontrivial=lambda c, o: True,
+                              describe=lambda c: " ".join(c.split(" ")[:3]) + " " + repr(unhexs(c.split(" ")[3])))
+        for c, i, m in rows:
+            if i.startswith("lit 222222") and len(i) >= 16:
+                stats["printed_as_block_string"] += 1
+                parts = c.split(" ")
+                block_ctx.add(parts[1])
+                if i.startswith("lit 2222220a"):
+                    stats["printed_as_multi_line_block_string"] += 1
+                    if parts[1] in ("desc_arg", "input_default") and parts[0] == "3":
+                        ctx.sample({"family": "ser_string", "case": " ".join(parts[:3]), "string": unhexs(parts[3]),
+                                    "printed": unhexs(i[4:])}, limit=3)
+            else:
+                stats["printed_as_quoted_string"] += 1
+
     # every context, configuration and depth: the special strings and a seeded sample of the exhaustive set
     # (biased to strings with a line feed, the only ones a non-description position prints as a block string)
-    with_lf = [s for s in strings if "\n" in s]
+    base = list(all_strings(ALPHA, 5))
+    with_lf = [s for s in base if "\n" in s]
     per = 25 if ctx.tier == "quick" else 400
-    n_ctx = 0
+    cases = []
     for c, depths in CONTEXTS.items():
         for cfg in CFGS:
             for d in depths:
-                sample = ctx.rng.sample(with_lf, per) + ctx.rng.sample(strings, per // 3)
+                sample = ctx.rng.sample(with_lf, per) + ctx.rng.sample(base, per // 3)
                 for s in SPECIALS + sample:
                     cases.append(f"{cfg} {c} {d} {hexs(s)}")
-                    n_ctx += 1
-    cases = sorted(set(cases))
-    rows = ctx.correspond(impl, model, "ser_string", cases, classify=classify,
-                          nontrivial=lambda c, o: True,
-                          describe=lambda c: " ".join(c.split(" ")[:3]) + " " + repr(unhexs(c.split(" ")[3])))
+    n_ctx = len(cases)
+    # the bare literal: a value on its own and a description at level 0, default configuration, exhaustive
+    n_bare = 0
+    if ctx.tier == "quick":
+        for s in base:
+            h = hexs(s)
+            cases.append(f"0 value 0 {h}")
+            cases.append(f"0 desc_scalar 0 {h}")
+            n_bare += 2
+        process(cases)
+    else:
+        for s in [""] + ALPHA:
+            cases.append(f"0 value 0 {hexs(s)}")
+            cases.append(f"0 desc_scalar 0 {hexs(s)}")
+        process(cases)
+        for first in ALPHA:       # one batch per first character keeps memory bounded
+            batch = []
+            for suf in all_strings(ALPHA, maxlen - 1):
+                if suf:
+                    h = hexs(first + suf)
+                    batch.append(f"0 value 0 {h}")
+                    batch.append(f"0 desc_scalar 0 {h}")
+                    # the same strings as a description two levels deep with a 4-space prefix and initial level 3
+                    batch.append(f"3 desc_arg 0 {h}")
+            n_bare += len(batch)
+            process(batch)
     fam = ctx.cov["families"]["ser_string"]
+    fam.update(stats)
     fam["bare_literal_cases"] = n_bare
     fam["exhaustive_upto_len"] = maxlen
     fam["in_context_cases"] = n_ctx
     fam["contexts"] = len(CONTEXTS)
     fam["configurations"] = len(CFGS)
-    blk = [(c, i) for c, i, _ in rows if i.startswith("lit 222222") and len(i) >= 16]
-    fam["printed_as_block_string"] = len(blk)
-    fam["printed_as_multi_line_block_string"] = sum(1 for _, i in blk if i.startswith("lit 2222220a"))
-    fam["printed_as_quoted_string"] = len(rows) - len(blk)
-    fam["block_in_contexts"] = sorted({c.split(" ")[1] for c, _ in blk})
-    for c, i, m in rows:
-        if i.startswith("lit 2222220a") and c.split(" ")[1] in ("desc_arg", "input_default") and c.split(" ")[0] == "3":
-            ctx.sample({"family": "ser_string", "case": " ".join(c.split(" ")[:3]), "string": unhexs(c.split(" ")[3]),
-                        "printed": unhexs(i[4:])}, limit=3)
+    fam["block_in_contexts"] = sorted(block_ctx)
     ctx.cov["rule"] = (
         f"ser_string: every string of length <= {maxlen} over {[repr(a) for a in ALPHA]} printed as a bare value and as a "
         "description under the default configuration; in each of the 21 contexts (argument / directive-argument value, "
@@ -87,7 +115,9 @@ def run(ctx):
     ctx.assumptions += [
         "the indent level / single-line mode of each document position is a table shared by harness/src/c09.rs and "
         "coq/ocaml/fam_c09.ml; the document printer around the string (C08) is exercised, not modelled",
-        "indent prefixes are whitespace (tab / space) as in the six configurations",
+        "indent prefixes are whitespace (tab / space) as in the six configurations; the theorems assume it (ws_prefix)",
+        "the printed literal is compared exactly: a change of the printed form that still round-trips is reported as a "
+        "correspondence failure (the theorems are about the model's printed form)",
     ]
     return ctx.finish(props)
 
